@@ -1,5 +1,6 @@
-// Package roaring is the w64 MODEL of github.com/RoaringBitmap/roaring v1.9.4 used by the
-// symbolic engine: a bitmap is one 64-bit word, the row universe is 0..63. It is loaded in
+// Package roaring is the MODEL of github.com/RoaringBitmap/roaring v1.9.4 used by the
+// symbolic engine: a bitmap is a short sequence of 64-bit words (one word, rows 0..63, for
+// symbolic datasets). It is loaded in
 // place of the real package through a go/packages overlay and executed by the same
 // interpreter as the code under analysis. Contract: see DESIGN.md §2.2.
 package roaring
@@ -11,11 +12,20 @@ func symCard(bits uint64) uint64
 func symSize(bits uint64) uint64
 func symOutOfBound(msg string)
 
+// A Bitmap is a sequence of 64-bit words; word i holds rows 64i .. 64i+63. Symbolic
+// datasets use a single word (rows 0..63: one solver variable per bitmap); concrete datasets
+// may use up to maxWords words (rows < 64*maxWords), which lets harnesses cross the writers'
+// 1000-row / 1000-value batch boundaries.
 type Bitmap struct {
-	bits uint64
+	w []uint64
 }
 
-const blobTag = 0xB1
+const (
+	blobTag  = 0xB1
+	maxWords = 32
+)
+
+func symIsConcrete(x uint64) bool
 
 func New() *Bitmap       { return &Bitmap{} }
 func NewBitmap() *Bitmap { return &Bitmap{} }
@@ -28,11 +38,33 @@ func BitmapOf(dat ...uint32) *Bitmap {
 	return b
 }
 
-func (rb *Bitmap) Add(x uint32) {
-	if x >= 64 {
-		symOutOfBound("roaring model: row id >= 64")
+func (rb *Bitmap) word(i int) uint64 {
+	if i < len(rb.w) {
+		return rb.w[i]
 	}
-	rb.bits |= uint64(1) << x
+	return 0
+}
+
+func (rb *Bitmap) grow(n int) {
+	for len(rb.w) < n {
+		rb.w = append(rb.w, 0)
+	}
+}
+
+func maxLen(a, b *Bitmap) int {
+	if len(a.w) > len(b.w) {
+		return len(a.w)
+	}
+	return len(b.w)
+}
+
+func (rb *Bitmap) Add(x uint32) {
+	i := int(x >> 6)
+	if i >= maxWords {
+		symOutOfBound("roaring model: row id beyond the model's universe")
+	}
+	rb.grow(i + 1)
+	rb.w[i] |= uint64(1) << (x & 63)
 }
 
 func (rb *Bitmap) AddInt(x int) { rb.Add(uint32(x)) }
@@ -44,56 +76,158 @@ func (rb *Bitmap) CheckedAdd(x uint32) bool {
 }
 
 func (rb *Bitmap) Remove(x uint32) {
-	if x >= 64 {
-		return
+	i := int(x >> 6)
+	if i < len(rb.w) {
+		rb.w[i] &^= uint64(1) << (x & 63)
 	}
-	rb.bits &^= uint64(1) << x
 }
 
 func (rb *Bitmap) Contains(x uint32) bool {
-	if x >= 64 {
+	i := int(x >> 6)
+	if i >= len(rb.w) {
 		return false
 	}
-	return rb.bits&(uint64(1)<<x) != 0
+	return rb.w[i]&(uint64(1)<<(x&63)) != 0
 }
 
-func (rb *Bitmap) Clone() *Bitmap { return &Bitmap{bits: rb.bits} }
-func (rb *Bitmap) Clear()         { rb.bits = 0 }
-func (rb *Bitmap) IsEmpty() bool  { return rb.bits == 0 }
-func (rb *Bitmap) RunOptimize()   {}
+func (rb *Bitmap) Clone() *Bitmap {
+	n := &Bitmap{}
+	n.w = append(n.w, rb.w...)
+	return n
+}
 
-func (rb *Bitmap) GetCardinality() uint64 { return symCard(rb.bits) }
-func (rb *Bitmap) GetSizeInBytes() uint64 { return symSize(rb.bits) }
+func (rb *Bitmap) Clear() { rb.w = nil }
+
+func (rb *Bitmap) IsEmpty() bool {
+	var all uint64
+	for _, x := range rb.w {
+		all |= x
+	}
+	return all == 0
+}
+
+func (rb *Bitmap) RunOptimize() {}
+
+func (rb *Bitmap) GetCardinality() uint64 {
+	var n uint64
+	for _, x := range rb.w {
+		n += symCard(x)
+	}
+	return n
+}
+
+func (rb *Bitmap) GetSizeInBytes() uint64 {
+	if len(rb.w) == 0 {
+		return symSize(0)
+	}
+	var n uint64
+	for _, x := range rb.w {
+		n += symSize(x)
+	}
+	return n
+}
 
 func (rb *Bitmap) Equals(o interface{}) bool {
 	ob, ok := o.(*Bitmap)
 	if !ok {
 		return false
 	}
-	return ob.bits == rb.bits
+	n := maxLen(rb, ob)
+	for i := 0; i < n; i++ {
+		if rb.word(i) != ob.word(i) {
+			return false
+		}
+	}
+	return true
 }
 
-func rangeMask(rangeStart, rangeEnd uint64) uint64 {
-	if rangeStart >= rangeEnd {
+// wordMask returns the bits of word i that lie in [rangeStart, rangeEnd).
+func wordMask(i int, rangeStart, rangeEnd uint64) uint64 {
+	lo := uint64(i) * 64
+	var s, e uint64
+	if rangeStart > lo {
+		s = rangeStart - lo
+	}
+	if s > 64 {
+		s = 64
+	}
+	if rangeEnd > lo {
+		e = rangeEnd - lo
+	}
+	if e > 64 {
+		e = 64
+	}
+	if s >= e {
 		return 0
 	}
-	if rangeEnd > 64 {
-		symOutOfBound("roaring model: range end > 64")
+	hi := uint64(1)<<e - 1 // e == 64 gives all ones (Go shift semantics)
+	return hi &^ (uint64(1)<<s - 1)
+}
+
+// rangeWords is the number of words a range operation touches.
+func rangeWords(have int, rangeEnd uint64) int {
+	if !symIsConcrete(rangeEnd) {
+		// symbolic range end: single-word universe (rows 0..63)
+		if rangeEnd > 64 {
+			symOutOfBound("roaring model: symbolic range end > 64")
+		}
+		if have < 1 {
+			return 1
+		}
+		return have
 	}
-	hi := uint64(1)<<rangeEnd - 1 // rangeEnd == 64 gives all ones (Go shift semantics)
-	lo := uint64(1)<<rangeStart - 1
-	return hi &^ lo
+	need := int((rangeEnd + 63) / 64)
+	if need > maxWords {
+		symOutOfBound("roaring model: range end beyond the model's universe")
+	}
+	if need < have {
+		return have
+	}
+	return need
 }
 
 // functional operations return fresh bitmaps
 
-func And(a, b *Bitmap) *Bitmap    { return &Bitmap{bits: a.bits & b.bits} }
-func Or(a, b *Bitmap) *Bitmap     { return &Bitmap{bits: a.bits | b.bits} }
-func Xor(a, b *Bitmap) *Bitmap    { return &Bitmap{bits: a.bits ^ b.bits} }
-func AndNot(a, b *Bitmap) *Bitmap { return &Bitmap{bits: a.bits &^ b.bits} }
+func And(a, b *Bitmap) *Bitmap {
+	n := maxLen(a, b)
+	r := &Bitmap{w: make([]uint64, n)}
+	for i := 0; i < n; i++ {
+		r.w[i] = a.word(i) & b.word(i)
+	}
+	return r
+}
+
+func Or(a, b *Bitmap) *Bitmap {
+	n := maxLen(a, b)
+	r := &Bitmap{w: make([]uint64, n)}
+	for i := 0; i < n; i++ {
+		r.w[i] = a.word(i) | b.word(i)
+	}
+	return r
+}
+
+func Xor(a, b *Bitmap) *Bitmap {
+	n := maxLen(a, b)
+	r := &Bitmap{w: make([]uint64, n)}
+	for i := 0; i < n; i++ {
+		r.w[i] = a.word(i) ^ b.word(i)
+	}
+	return r
+}
+
+func AndNot(a, b *Bitmap) *Bitmap {
+	n := maxLen(a, b)
+	r := &Bitmap{w: make([]uint64, n)}
+	for i := 0; i < n; i++ {
+		r.w[i] = a.word(i) &^ b.word(i)
+	}
+	return r
+}
 
 func Flip(bm *Bitmap, rangeStart, rangeEnd uint64) *Bitmap {
-	return &Bitmap{bits: bm.bits ^ rangeMask(rangeStart, rangeEnd)}
+	r := bm.Clone()
+	r.Flip(rangeStart, rangeEnd)
+	return r
 }
 
 func FlipInt(bm *Bitmap, rangeStart, rangeEnd int) *Bitmap {
@@ -105,19 +239,19 @@ func FastAnd(bitmaps ...*Bitmap) *Bitmap {
 	if len(bitmaps) == 0 {
 		return New()
 	}
-	r := bitmaps[0].bits
+	r := bitmaps[0].Clone()
 	for _, b := range bitmaps[1:] {
-		r &= b.bits
+		r.And(b)
 	}
-	return &Bitmap{bits: r}
+	return r
 }
 
 func FastOr(bitmaps ...*Bitmap) *Bitmap {
-	var r uint64
+	r := New()
 	for _, b := range bitmaps {
-		r |= b.bits
+		r.Or(b)
 	}
-	return &Bitmap{bits: r}
+	return r
 }
 
 func ParAnd(parallelism int, bitmaps ...*Bitmap) *Bitmap { return FastAnd(bitmaps...) }
@@ -125,54 +259,107 @@ func ParOr(parallelism int, bitmaps ...*Bitmap) *Bitmap  { return FastOr(bitmaps
 
 // in-place operations mutate the receiver
 
-func (rb *Bitmap) And(o *Bitmap)    { rb.bits &= o.bits }
-func (rb *Bitmap) Or(o *Bitmap)     { rb.bits |= o.bits }
-func (rb *Bitmap) Xor(o *Bitmap)    { rb.bits ^= o.bits }
-func (rb *Bitmap) AndNot(o *Bitmap) { rb.bits &^= o.bits }
+func (rb *Bitmap) And(o *Bitmap) {
+	for i := range rb.w {
+		rb.w[i] &= o.word(i)
+	}
+}
+
+func (rb *Bitmap) Or(o *Bitmap) {
+	rb.grow(len(o.w))
+	for i := range o.w {
+		rb.w[i] |= o.w[i]
+	}
+}
+
+func (rb *Bitmap) Xor(o *Bitmap) {
+	rb.grow(len(o.w))
+	for i := range o.w {
+		rb.w[i] ^= o.w[i]
+	}
+}
+
+func (rb *Bitmap) AndNot(o *Bitmap) {
+	for i := range rb.w {
+		rb.w[i] &^= o.word(i)
+	}
+}
+
 func (rb *Bitmap) Flip(rangeStart, rangeEnd uint64) {
-	rb.bits ^= rangeMask(rangeStart, rangeEnd)
+	if rangeStart >= rangeEnd {
+		return
+	}
+	n := rangeWords(len(rb.w), rangeEnd)
+	rb.grow(n)
+	for i := 0; i < n; i++ {
+		rb.w[i] ^= wordMask(i, rangeStart, rangeEnd)
+	}
 }
+
 func (rb *Bitmap) FlipInt(rangeStart, rangeEnd int) { rb.Flip(uint64(rangeStart), uint64(rangeEnd)) }
+
 func (rb *Bitmap) AddRange(rangeStart, rangeEnd uint64) {
-	rb.bits |= rangeMask(rangeStart, rangeEnd)
+	if rangeStart >= rangeEnd {
+		return
+	}
+	n := rangeWords(len(rb.w), rangeEnd)
+	rb.grow(n)
+	for i := 0; i < n; i++ {
+		rb.w[i] |= wordMask(i, rangeStart, rangeEnd)
+	}
 }
+
 func (rb *Bitmap) RemoveRange(rangeStart, rangeEnd uint64) {
-	rb.bits &^= rangeMask(rangeStart, rangeEnd)
+	for i := range rb.w {
+		rb.w[i] &^= wordMask(i, rangeStart, rangeEnd)
+	}
 }
 
-func (rb *Bitmap) AndCardinality(o *Bitmap) uint64 { return symCard(rb.bits & o.bits) }
-func (rb *Bitmap) OrCardinality(o *Bitmap) uint64  { return symCard(rb.bits | o.bits) }
-func (rb *Bitmap) Intersects(o *Bitmap) bool       { return rb.bits&o.bits != 0 }
+func (rb *Bitmap) AndCardinality(o *Bitmap) uint64 { return And(rb, o).GetCardinality() }
+func (rb *Bitmap) OrCardinality(o *Bitmap) uint64  { return Or(rb, o).GetCardinality() }
+func (rb *Bitmap) Intersects(o *Bitmap) bool       { return !And(rb, o).IsEmpty() }
 
-// serialisation: an opaque tagged blob; FromBuffer(ToBytes(b)) = b.
+// serialisation: an opaque tagged blob (1 + 8 bytes per word); FromBuffer(ToBytes(b)) = b.
 
 func (rb *Bitmap) ToBytes() ([]byte, error) {
-	b := make([]byte, 9)
+	n := len(rb.w)
+	if n == 0 {
+		n = 1
+	}
+	b := make([]byte, 1+8*n)
 	b[0] = blobTag
-	x := rb.bits
-	b[1] = byte(x >> 56)
-	b[2] = byte(x >> 48)
-	b[3] = byte(x >> 40)
-	b[4] = byte(x >> 32)
-	b[5] = byte(x >> 24)
-	b[6] = byte(x >> 16)
-	b[7] = byte(x >> 8)
-	b[8] = byte(x)
+	for i := 0; i < n; i++ {
+		x := rb.word(i)
+		o := 1 + 8*i
+		b[o] = byte(x >> 56)
+		b[o+1] = byte(x >> 48)
+		b[o+2] = byte(x >> 40)
+		b[o+3] = byte(x >> 32)
+		b[o+4] = byte(x >> 24)
+		b[o+5] = byte(x >> 16)
+		b[o+6] = byte(x >> 8)
+		b[o+7] = byte(x)
+	}
 	return b, nil
 }
 
 func (rb *Bitmap) MarshalBinary() ([]byte, error) { return rb.ToBytes() }
 
 func (rb *Bitmap) FromBuffer(buf []byte) (int64, error) {
-	if len(buf) != 9 {
+	if len(buf) < 9 || (len(buf)-1)%8 != 0 || (len(buf)-1)/8 > maxWords {
 		return 0, errors.New("roaring model: not a bitmap blob (length)")
 	}
 	if buf[0] != blobTag {
 		return 0, errors.New("roaring model: not a bitmap blob (tag)")
 	}
-	rb.bits = uint64(buf[1])<<56 | uint64(buf[2])<<48 | uint64(buf[3])<<40 | uint64(buf[4])<<32 |
-		uint64(buf[5])<<24 | uint64(buf[6])<<16 | uint64(buf[7])<<8 | uint64(buf[8])
-	return 9, nil
+	n := (len(buf) - 1) / 8
+	rb.w = make([]uint64, n)
+	for i := 0; i < n; i++ {
+		o := 1 + 8*i
+		rb.w[i] = uint64(buf[o])<<56 | uint64(buf[o+1])<<48 | uint64(buf[o+2])<<40 | uint64(buf[o+3])<<32 |
+			uint64(buf[o+4])<<24 | uint64(buf[o+5])<<16 | uint64(buf[o+6])<<8 | uint64(buf[o+7])
+	}
+	return int64(len(buf)), nil
 }
 
 func (rb *Bitmap) FromUnsafeBytes(buf []byte, cookieHeader ...byte) (int64, error) {
@@ -186,9 +373,11 @@ func (rb *Bitmap) UnmarshalBinary(buf []byte) error {
 
 func (rb *Bitmap) ToArray() []uint32 {
 	var out []uint32
-	for i := uint32(0); i < 64; i++ {
-		if rb.bits&(uint64(1)<<i) != 0 {
-			out = append(out, i)
+	for i, x := range rb.w {
+		for j := uint32(0); j < 64; j++ {
+			if x&(uint64(1)<<j) != 0 {
+				out = append(out, uint32(i)*64+j)
+			}
 		}
 	}
 	return out
